@@ -5,6 +5,7 @@ mod c09;
 mod c10;
 mod c16;
 mod canvas;
+mod c13;
 mod c15;
 mod c18;
 mod session;
@@ -19,6 +20,7 @@ fn dispatch(prop: &str, case: &str) -> String {
         "C09" => c09::run(case),
         "C10" => c10::run(case),
         "C16" => c16::run(case),
+        "C13" => c13::run(case),
         "C15" => c15::run(case),
         "C18" => c18::run(case),
         _ => "error:unknown-property".into(),
